@@ -194,6 +194,10 @@ def main(module, argv=None):
     by_backend = {}
     kf_hit = {}
     replay_dir = os.path.join(ROOT, "replays", prop)
+    if os.path.isdir(replay_dir) and not a.family:
+        for fn in os.listdir(replay_dir):
+            if fn.endswith(".json"):
+                os.remove(os.path.join(replay_dir, fn))
     for r in results:
         b = by_backend.setdefault(r.get("backend", "z3-5.1.0-api"), {"count": 0, "seconds": 0.0})
         b["count"] += 1
@@ -215,7 +219,7 @@ def main(module, argv=None):
             native = native_run(spec["native_script"])
         confirmed = bool(native and native.get("violates"))
         os.makedirs(replay_dir, exist_ok=True)
-        h = hashlib.sha256(r["name"].encode()).hexdigest()[:12]
+        h = hashlib.sha256((r["name"] + "#" + str(r.get("path"))).encode()).hexdigest()[:12]
         rp = os.path.join(replay_dir, h + ".json")
         payload = {"property": prop, "obligation": r["name"], "clause": r.get("clause"),
                    "source": r.get("source"), "backend": r.get("backend", "z3-5.1.0-api"),
@@ -235,7 +239,15 @@ def main(module, argv=None):
     exit_code = 0
     lines = []
     for f in kf:
-        lines.append(f"KNOWN-FINDING: property={prop} {f['what']}")
+        # each recorded finding is re-run natively; the line is printed either way (the region stays
+        # excluded), with a note when the defect no longer reproduces on the tree under check
+        note = ""
+        if f.get("native_script"):
+            nat = native_run(f["native_script"])
+            f["_native"] = nat
+            if not nat.get("violates"):
+                note = " [note: no longer reproduces natively: " + json.dumps(nat)[:160] + "]"
+        lines.append(f"KNOWN-FINDING: property={prop} {f['what']}{note}")
     for r in reported:
         rel = os.path.relpath(r["replay"], ROOT)
         if r["confirmed"]:
